@@ -1,7 +1,11 @@
 package main
 
 import (
+	"bytes"
+	stdxml "encoding/xml"
 	"fmt"
+	"io"
+	"strings"
 )
 
 // ---- C11, second correspondence: the Coq *specification* (document grammar, render_doc, expect_doc,
@@ -65,6 +69,29 @@ func encItems(items []xitem) []int64 {
 		case itEnd:
 			out = encBytesStr(out, it.s)
 			out = encBytesStr(out, it.ws)
+		case itTag:
+			if it.pi {
+				out = append(out, 1)
+			} else {
+				out = append(out, 0)
+			}
+			out = encBytesStr(out, it.s)
+			out = append(out, int64(len(it.gpieces)))
+			for _, g := range it.gpieces {
+				out = encBytesStr(out, g.lead)
+				out = encBytesStr(out, g.name)
+				out = append(out, int64(g.vk))
+				if g.vk != 0 {
+					out = encBytesStr(out, g.w1)
+					out = encBytesStr(out, g.w2)
+					if g.vk == 2 {
+						out = append(out, int64(g.q))
+					}
+					out = encBytesStr(out, g.val)
+				}
+			}
+			out = encBytesStr(out, it.ws)
+			out = append(out, int64(it.closer))
 		}
 	}
 	return out
@@ -152,6 +179,29 @@ func decItems(a []int64) ([]xitem, bool) {
 		case itEnd:
 			it.s = r.str()
 			it.ws = r.str()
+		case itTag:
+			it.pi = r.next() != 0
+			it.s = r.str()
+			for m := r.count(); m > 0 && r.ok; m-- {
+				var g c11Gattr
+				g.lead, g.name = r.str(), r.str()
+				g.vk = int(r.next())
+				if g.vk != 0 {
+					g.w1, g.w2 = r.str(), r.str()
+					if g.vk == 2 {
+						g.q = byte(r.next())
+					} else {
+						g.vk = 1
+					}
+					g.val = r.str()
+				}
+				it.gpieces = append(it.gpieces, g)
+			}
+			it.ws = r.str()
+			it.closer = int(r.next())
+			if it.closer != 7 && it.closer != 8 {
+				it.closer = 6
+			}
 		default:
 			r.ok = false
 		}
@@ -215,6 +265,14 @@ func xmlspecGen(r *Rng, tier string, emit func(Case)) {
 			continue
 		}
 		emit(xmlspecCase(items, "doc"))
+	}
+	// the general tag opener: free-form processing-instruction / tag content
+	ng := 3000
+	if tier == "thorough" {
+		ng = 60000
+	}
+	for i := 0; i < ng; i++ {
+		emit(xmlspecCase(c11GenTagItems(r), "gtag"))
 	}
 	// single constructs with boundary bodies
 	single := []xitem{
@@ -280,7 +338,7 @@ func xmlspecClass(c Case, out []int64) string {
 		kinds[it.kind] = true
 	}
 	s := "spec/"
-	for k, n := range []string{"t", "c", "d", "D", "p", "s", "e"} {
+	for k, n := range []string{"t", "c", "d", "D", "p", "s", "e", "g"} {
 		if kinds[k] {
 			s += n
 		}
@@ -292,3 +350,158 @@ func xmlspecClass(c Case, out []int64) string {
 }
 
 var xmlspecModel = &Model{Name: "xmlspec", Gen: xmlspecGen, Impl: xmlspecImpl, Shrink: xmlspecShrink, Class: xmlspecClass}
+
+// ---- C11, third correspondence: the Coq *reference semantics* (Xml/Agree.v ref_events: element names,
+// attribute names, normalised attribute values, PI targets of a grammar document) against encoding/xml's
+// RawToken on the rendered document.  The Coq theorem xml_agrees_with_reference says the lexer reports
+// exactly ref_events; this run validates ref_events against an independent XML reader. ----------------------
+
+// c11StdNorm maps the attribute value encoding/xml reports (line ends already LF) to XML 1.0's normalised
+// form: encoding/xml does not replace TAB/LF by space itself.
+func c11StdNorm(s string) string { return normWS(s) }
+
+func c11XmlrefImpl(c Case) []int64 {
+	items, ok := decItems(c.Args)
+	if !ok {
+		return []int64{-9}
+	}
+	d := buildDoc(items)
+	src := d.src
+	if d.feats["doctype-pi-special"] { // see xmlWellFormed
+		src = d.srcNoDT
+	}
+	dec := stdxml.NewDecoder(bytes.NewReader(src))
+	var evs [][]int64
+	for {
+		t, err := dec.RawToken()
+		if err == io.EOF {
+			break
+		}
+		if err != nil {
+			return []int64{-7}
+		}
+		switch e := t.(type) {
+		case stdxml.StartElement:
+			ev := encBytesStr([]int64{0}, rawName(e.Name))
+			ev = append(ev, int64(len(e.Attr)))
+			for _, a := range e.Attr {
+				ev = encBytesStr(ev, rawName(a.Name))
+				ev = encBytesStr(ev, c11StdNorm(a.Value))
+			}
+			evs = append(evs, ev)
+		case stdxml.EndElement:
+			evs = append(evs, encBytesStr([]int64{1}, rawName(e.Name)))
+		case stdxml.ProcInst:
+			evs = append(evs, encBytesStr([]int64{2}, e.Target))
+		}
+	}
+	out := []int64{-4, int64(len(evs))}
+	for _, ev := range evs {
+		out = append(out, ev...)
+	}
+	return out
+}
+
+func c11XmlrefGen(r *Rng, tier string, emit func(Case)) {
+	n := 4000
+	if tier == "thorough" {
+		n = 100000
+	}
+	for i := 0; i < n; i++ {
+		items := genXMLItems(r)
+		if len(buildDoc(items).src) > 3000 {
+			continue
+		}
+		c := xmlspecCase(items, "ref")
+		c.Fn = "xmlref"
+		emit(c)
+	}
+}
+
+func c11XmlrefShrink(c Case) []Case {
+	out := xmlspecShrink(c)
+	for i := range out {
+		out[i].Fn = "xmlref"
+	}
+	return out
+}
+
+var c11XmlrefModel = &Model{Name: "xmlref", Gen: c11XmlrefGen, Impl: c11XmlrefImpl, Shrink: c11XmlrefShrink, Class: xmlspecClass}
+
+// c11GenTagItems: a general tag opener (free-form PI or tag content: bare names, unquoted values, '/' and '?'
+// inside names, empty names before '=', pieces glued to a closing quote, any closer) followed by character
+// data and an element.  Built so that the side conditions of the Coq grammar hold by construction.
+func c11GenTagItems(r *Rng) []xitem {
+	nameChars := []string{"a", "b", "x", "é", "-", ":", "$", ";", "(", ")", "&", "<", "\"", "'", "/", "?", "[", "]"}
+	genName := func(allowEmpty bool) string {
+		if allowEmpty && r.Chance(1, 6) {
+			return ""
+		}
+		s := r.PickStr([]string{"a", "b", "x", "echo", "$v", "é", "/", "?", "'", "\""})
+		for k := r.Intn(3); k > 0; k-- {
+			s += r.PickStr(nameChars)
+		}
+		if s[len(s)-1] == '/' || s[len(s)-1] == '?' {
+			s += "z" // '/' and '?' never last: the byte after the name may be '>'
+		}
+		return s
+	}
+	ws1 := func() string { return r.PickStr([]string{" ", " ", "\t", "\n", "\r\n", "  "}) }
+	ws0 := func() string {
+		if r.Chance(2, 3) {
+			return ""
+		}
+		return ws1()
+	}
+	it := xitem{kind: itTag, pi: r.Chance(2, 3), s: genXMLName(r), closer: 6 + r.Intn(3)}
+	n := r.Intn(4)
+	prevQuoted := false
+	for i := 0; i < n; i++ {
+		g := c11Gattr{lead: ws1(), vk: r.Intn(3)}
+		if prevQuoted && r.Chance(1, 3) {
+			g.lead = ""
+		}
+		g.name = genName(g.vk != 0)
+		if g.name == "" {
+			g.w1 = ""
+		} else if g.vk != 0 {
+			g.w1 = ws0()
+		}
+		if g.vk != 0 {
+			g.w2 = ws0()
+		}
+		switch g.vk {
+		case 1:
+			g.val = r.PickStr([]string{"v", "1", "x=y", "a/b", "é", "$", "c'd", "e\"f", "?z", "/z"})
+			if c := g.val[len(g.val)-1]; c == '/' || c == '?' {
+				g.val += "z"
+			}
+		case 2:
+			g.q = '"'
+			if r.Bool() {
+				g.q = '\''
+			}
+			g.val = strings.ReplaceAll(r.PickStr(c11ValChunks)+r.PickStr(c11ValChunks), string(g.q), "")
+			g.val = strings.ReplaceAll(g.val, "\r\n", "\r")
+		}
+		// a bare name must not be followed by '=' (it would be its value): the next piece then has a name
+		if i > 0 && it.gpieces[i-1].vk == 0 && g.name == "" {
+			g.name = "n"
+			if g.vk != 0 {
+				g.w1 = ws0()
+			}
+		}
+		if g.lead == "" && g.name == "" && false {
+			g.lead = " "
+		}
+		prevQuoted = g.vk == 2
+		it.gpieces = append(it.gpieces, g)
+	}
+	it.ws = ws0()
+	items := []xitem{it}
+	if r.Bool() {
+		items = append(items, xitem{kind: itText, s: r.PickStr([]string{"b?>", "t", " x ?> ", "?>"})})
+	}
+	items = append(items, xitem{kind: itStart, s: "a", void: true})
+	return items
+}
